@@ -123,11 +123,19 @@ def PairSort():
     return PairSort._s
 
 
+SID = z3.Function("SID", z3.StringSort(), z3.IntSort())        # interned string id (lists of strings are Seq Int: nested sequences
+STR_OF = z3.Function("STR_OF", z3.IntSort(), z3.StringSort())   # are beyond z3's sequence solver); STR_OF(SID(s)) == s makes SID injective
+
+
+def sid(path, s):
+    t = SID(s)
+    path.assume(STR_OF(t) == s)
+    return t
+
+
 def elem_sort(kind: str):
-    if kind in ("ref", "int", "char"):
+    if kind in ("ref", "int", "char", "str"):
         return z3.IntSort()
-    if kind == "str":
-        return z3.StringSort()
     if kind.startswith("slice"):
         return PairSort()
     raise EngineError(f"element kind {kind}")
